@@ -21,7 +21,8 @@ let parse_node s =
   in
   let kind =
     match body.[0] with
-    | 'P' -> KPtr | 'S' -> KSlice | 'M' -> KMap | 'I' -> KIface | 'T' -> KStruct | _ -> KLeaf
+    | 'P' -> KPtr | 'S' -> KSlice | 'M' -> KMap | 'I' -> KIface | 'T' -> KStruct | 'L' -> KLeaf
+    | _ -> failwith "bad node kind"
   in
   let rest = String.sub body 1 (String.length body - 1) in
   let kids = if rest = "" then [] else List.map (fun x -> nat_of_int (int_of_string x)) (String.split_on_char ',' rest) in
